@@ -46,3 +46,14 @@ Definition quad_eqb (a b : N * N * N * N) : bool :=
 Definition check_marker (a : args_marker) (exp : list (N * N * N * N)) : bool :=
   list_eqb quad_eqb (model_marker a) exp.
 Definition case_t_marker : Type := (N * args_marker * list (N * N * N * N))%type.
+
+(** group parent: for non-leaf segments, [[children's (source, templated) ranges]] vs the
+    parents' [(source range, templated range)] *)
+Definition rmarker := ((N * N) * (N * N))%type.
+Definition to_marker (x : rmarker) : marker := {| m_src := fst x; m_tpl := snd x |}.
+Definition model_parent (a : list (list rmarker)) : list rmarker :=
+  map (fun kids => let m := from_child_markers (map to_marker kids) in (m_src m, m_tpl m)) a.
+Definition rmarker_eqb (a b : rmarker) : bool := pair_N_eqb (fst a) (fst b) && pair_N_eqb (snd a) (snd b).
+Definition check_parent (a : list (list rmarker)) (exp : list rmarker) : bool :=
+  list_eqb rmarker_eqb (model_parent a) exp.
+Definition case_t_parent : Type := (N * list (list rmarker) * list rmarker)%type.
